@@ -45,7 +45,7 @@ CONSTANTS ProcsC1, ProcsC2,  \* API-call processes acting with the proven identi
           Faults,            \* number of storage writes that fail (0 or 1)
           Guess,             \* TRUE: Delete may target ids that no create has returned yet
           ViaHandler,        \* TRUE: Create = the command handler path (pre-check + expiry update)
-          Seq,               \* TRUE: calls do not overlap (sequential histories)
+          Serial,               \* TRUE: calls do not overlap (sequential histories)
           MaxLegacy,         \* number of legacy (management API) HTTP mappings that may be created
           Fix,               \* TRUE: model of the repaired DeleteMapping / rollback
           Emit
@@ -65,7 +65,7 @@ CProcs == ProcsC1 \cup ProcsC2
 Procs == CProcs \cup LookProcs
 Cl(p) == IF p \in ProcsC1 THEN "c1" ELSE "c2"
 Clients == {"c1", "c2"}
-FirstName == CHOOSE n \in Names : \A m \in Names : n <= m
+FirstName == "n1"     \* name of the pre-existing mapping ("n1" must be in Names)
 PreN == IF Pre THEN 1 ELSE 0
 MaxId == PreN + Cardinality(CProcs) * MaxOps
 Ids == 1..MaxId
@@ -85,7 +85,7 @@ Init == /\ nextId = PreN
         /\ pc = [p \in Procs |-> "idle"] /\ cur = [p \in Procs |-> NoCur]
         /\ tmp = [p \in Procs |-> NoRec] /\ done = [p \in Procs |-> 0]
         /\ fault = Faults
-        /\ okc = IF Pre THEN {1} ELSE {} /\ failc = {} /\ deld = {} /\ delok = {} /\ inact = {}
+        /\ okc = (IF Pre THEN {1} ELSE {}) /\ failc = {} /\ deld = {} /\ delok = {} /\ inact = {}
         /\ meta = [i \in Ids |-> IF Pre /\ i = 1 THEN [c |-> "c1", n |-> FirstName] ELSE [c |-> "-", n |-> "-"]]
         /\ legdead = {} /\ snap = [p \in Procs |-> NoSnap]
         /\ bad = {} /\ dev = {} /\ hist = <<>>
@@ -106,7 +106,7 @@ U_ghost == UNCHANGED <<okc, failc, deld, delok, inact, meta, snap, bad, dev>>
 
 \* ---- calls ------------------------------------------------------------------------------------
 Call(p, c, first) ==
-  /\ pc[p] = "idle" /\ (Seq => AllIdle)
+  /\ pc[p] = "idle" /\ (Serial => AllIdle)
   /\ cur' = [cur EXCEPT ![p] = c]
   /\ pc' = [pc EXCEPT ![p] = first]
   /\ tmp' = [tmp EXCEPT ![p] = NoRec]
@@ -397,7 +397,7 @@ LRec(q) ==   \* Get(mapping:<id>), status / expiry check
 \* ---- legacy HTTP mappings (management API; atomic) -------------------------------------------
 \* here = TRUE: the call is served by the proxy node (its registry is updated as well)
 LegCreate(c, n, here) ==
-  /\ nleg < MaxLegacy /\ (Seq => AllIdle)
+  /\ nleg < MaxLegacy /\ (Serial => AllIdle)
   /\ IF here THEN reg[n] = NoLeg ELSE cc[n] = NoLeg        \* IsSubdomainAvailable of the serving node's registry
   /\ nleg' = nleg + 1
   /\ cc' = [cc EXCEPT ![n] = [id |-> nleg + 1, c |-> c]]
@@ -409,7 +409,7 @@ LegCreate(c, n, here) ==
           st |-> IF here THEN "here" ELSE "other"])
 
 LegDelete(n, here) ==
-  /\ cc[n] # NoLeg /\ (Seq => AllIdle)
+  /\ cc[n] # NoLeg /\ (Serial => AllIdle)
   /\ cc' = [cc EXCEPT ![n] = NoLeg]
   /\ reg' = IF here /\ reg[n].id = cc[n].id THEN [reg EXCEPT ![n] = NoLeg] ELSE reg    \* UnregisterByMappingID
   /\ legdead' = legdead \cup {cc[n].id}
